@@ -95,6 +95,13 @@ func C04(r *Run) {
 			base["svc"] = map[string]any{"p": base["defaults"].(map[string]any)["p"], "q": base["defaults"].(map[string]any)["q"], "r": "own"}
 			base["again"] = gen.Clone(base["defaults"])
 		}
+		if g.P(0.3) { // keys that look like numbers / booleans (YAML may write them plain: style "plainkeys")
+			vers := map[string]any{}
+			for j := 1 + g.N(3); j > 0; j-- {
+				vers[g.Pick(fsx.PlainKeyStrings)] = []any{"stable", "next", 1, 2.5, true}[g.N(5)]
+			}
+			base["vers"] = vers
+		}
 		layers := [][]any{{base}}
 		if g.P(0.2) {
 			layers[0] = append(layers[0], numericMap(g, 1))
@@ -139,6 +146,9 @@ func C04(r *Run) {
 			if g.P(0.3) {
 				style = g.Pick([]string{"flow", "anchors", "merge", "dotted", "inline", "docstart", "plus"})
 			}
+			if _, has := base["vers"]; has && g.P(0.6) {
+				style = "plainkeys"
+			}
 			l := &layout{Fs: map[string]fsx.Entry{}, Root: "/"}
 			name := "a"
 			okLayout := true
@@ -152,7 +162,11 @@ func C04(r *Run) {
 					b, err := fsx.EncodeStyled(asg[k], docs, style)
 					if err == nil {
 						// the variant must mean the intended tree for an independent reader
-						got, ok, _, derr := indep.Decode(asg[k], string(b))
+						dec := indep.Decode
+						if style == "plainkeys" {
+							dec = indep.DecodeKeyText // a key is the text of the key as written
+						}
+						got, ok, _, derr := dec(asg[k], string(b))
 						if derr != nil {
 							Fatal("independent decoder: %v", derr)
 						}
@@ -204,5 +218,5 @@ func C04(r *Run) {
 	_ = tv.Equal
 	_ = fmt.Sprint
 	finishEvalFamily(r, "C04", st, sessions, []string{"FormatFree (every assignment equals the all-JSON writing)"},
-		"model: a numeric base layer x 20 upper layers ($match / $delete patterns with 32-bit-overflowing, 64-bit and float ids, same-value overrides of ints, floats, extremes and denormals, $repeat, document-level $match on numbers) x 3 third layers under ALL 3^n assignments of json/yaml/toml, each run through the real bkl; driver: random numeric layer sets (1-3 layers, 1-2 documents) under all 3^n assignments, a third of them in a style variant (YAML flow, anchors/aliases, merge keys; TOML dotted keys, inline tables) that the independent decoder confirms to mean the same tree; TLC validates every run against the format-free RunLayers")
+		"model: a numeric base layer x 20 upper layers ($match / $delete patterns with 32-bit-overflowing, 64-bit and float ids, same-value overrides of ints, floats, extremes and denormals, $repeat, document-level $match on numbers) x 3 third layers under ALL 3^n assignments of json/yaml/toml, each run through the real bkl; driver: random numeric layer sets (1-3 layers, 1-2 documents) under all 3^n assignments, a third of them in a style variant (YAML flow, anchors/aliases, merge keys, number-like keys written plain; TOML dotted keys, inline tables, +++ separators) that the independent decoder confirms to mean the same tree; TLC validates every run against the format-free RunLayers")
 }
